@@ -345,8 +345,10 @@ def translate(src):
                 raise Untranslatable("statements after the result expression")
     if final is None:
         raise Untranslatable("no result expression")
-    if not (final[0] == "bin" and final[1] == "%" and final[3] == ("path", ["self", "table_size"])):
-        raise Untranslatable("the result is not of the form  X % self.table_size")
+    # the reduction to a bucket: X % self.<the field holding the number of rows> (whatever it is called;
+    # a field that is NOT the number of rows shows up as cache counters differing from the model's)
+    if not (final[0] == "bin" and final[1] == "%" and final[3][0] == "path" and len(final[3][1]) == 2 and final[3][1][0] == "self"):
+        raise Untranslatable("the result is not of the form  X % self.<rows field>")
     if not accs:
         raise Untranslatable("no accumulator")
     tup = accs[0] if len(accs) == 1 else "(" + ", ".join(accs) + ")"
